@@ -373,6 +373,35 @@ def _check_agg_value(e, c, got, group_rows, colidx, key, where):
     return []
 
 
+def _nondeterministic(op):
+    """True when the sub-DAG under op draws random numbers (uniform()): evaluating it a second time gives a
+    different input, so the hook has no input to compare the step's output with"""
+    import data_algebra.expr_rep as er
+
+    def expr_random(e):
+        if isinstance(e, er.Expression):
+            if e.op in ("uniform", "_uniform"):
+                return True
+            return any(expr_random(a) for a in e.args)
+        return False
+
+    seen = set()
+    stack = [op]
+    while stack:
+        o = stack.pop()
+        if id(o) in seen:
+            continue
+        seen.add(id(o))
+        ops = getattr(o, "ops", None)
+        if isinstance(ops, dict) and any(expr_random(e) for e in ops.values()):
+            return True
+        ex = getattr(o, "expr", None)
+        if ex is not None and expr_random(ex):
+            return True
+        stack.extend(getattr(o, "sources", []) or [])
+    return False
+
+
 def _wrap_step(orig, source_eval_name, where):
     @functools.wraps(orig)
     def wrapper(self, op, *, data_map):
@@ -381,6 +410,9 @@ def _wrap_step(orig, source_eval_name, where):
             return res
         _in_hook[0] = True
         try:
+            if _nondeterministic(op.sources[0]):
+                OBS.hit("c09:skipped-random-source:" + where)
+                return res
             inp = getattr(self, source_eval_name)(op.sources[0], data_map=data_map)
             r2 = res
             if hasattr(inp, "collect"):
